@@ -73,6 +73,13 @@ func cmdDNSPool(args []string) error {
 	net(func(r *aRule) { r.PermDns = []string{"A"} })
 	net(func(r *aRule) { r.PermCli = []aCli{{K: "name", V: bytesToInts("phone")}} })
 	net(func(r *aRule) { r.RestTag = [][]int{bytesToInts("t1")} })
+	// two excluded tags, written out of alphabetical order
+	net(func(r *aRule) { r.RestTag = [][]int{bytesToInts("t2"), bytesToInts("t1")} })
+	// near twins in the excluded record types: the $badfilter one is no twin of the other
+	net(func(r *aRule) { r.RestDns = []string{"MX"} })
+	net(func(r *aRule) { r.RestDns = []string{"TXT"}; r.Badfilter = true })
+	// the shortest pattern an unrestricted rule may have
+	net(func(r *aRule) { r.Pat = bytesToInts(".co") })
 	// client given by network: it counts whether or not the request also names the client
 	net(func(r *aRule) { r.PermCli = []aCli{{K: "net", Fam: 4, Bytes: []int{10, 0, 0, 0}, Bits: 8}} })
 	net(func(r *aRule) { r.RestCli = []aCli{{K: "net", Fam: 4, Bytes: []int{10, 0, 0, 5}, Bits: 32}} })
@@ -104,7 +111,9 @@ func cmdDNSPool(args []string) error {
 			e.Text = e.Rule.text(0, rr)
 			r, err := rules.NewNetworkRule(e.Text, 1)
 			if err != nil {
-				return fmt.Errorf("pool rule %q: %v", e.Text, err)
+				// every pool rule has a meaning in the specification: a parser that refuses one loses it
+				parseMismatch = append(parseMismatch, fmt.Sprintf("rule %q is rejected by the parser: %v", e.Text, err))
+				continue
 			}
 			if err = checkRendered(e.Rule, r); err != nil {
 				return fmt.Errorf("renderer self-check %q: %v", e.Text, err)
